@@ -415,6 +415,12 @@ SCOPES = [
     ("describe table s2.t1", {"TABLE_CATALOG": "DB1", "TABLE_SCHEMA": "S2", "TABLE_NAME": "T1"}),
     ("DESCRIBE TABLE db2.s1.t1", {"TABLE_CATALOG": "DB2", "TABLE_SCHEMA": "S1", "TABLE_NAME": "T1"}),
     ('describe table "DB2"."S1".t1', {"TABLE_CATALOG": "DB2", "TABLE_SCHEMA": "S1", "TABLE_NAME": "T1"}),
+    # quoted names are kept exactly as written, unquoted ones fold to upper case - in every position
+    ('describe table "quoted_s".t1', {"TABLE_CATALOG": "DB1", "TABLE_SCHEMA": "quoted_s", "TABLE_NAME": "T1"}),
+    ('describe table db1."Mixed_S"."people"', {"TABLE_CATALOG": "DB1", "TABLE_SCHEMA": "Mixed_S", "TABLE_NAME": "people"}),
+    ('DESCRIBE VIEW "quoted_s"."V 1"', {"TABLE_CATALOG": "DB1", "TABLE_SCHEMA": "quoted_s", "TABLE_NAME": "V 1"}),
+    ('describe table "S2".T1', {"TABLE_CATALOG": "DB1", "TABLE_SCHEMA": "S2", "TABLE_NAME": "T1"}),
+    ("describe table Db2.s1.T1", {"TABLE_CATALOG": "DB2", "TABLE_SCHEMA": "S1", "TABLE_NAME": "T1"}),
     ("show schemas", {"CATALOG_NAME": "DB1"}),
     ("show schemas in database db2", {"CATALOG_NAME": "DB2"}),
     ("show primary keys in schema db1.s2", {"DATABASE_NAME": "DB1", "SCHEMA_NAME": "S2"}),
@@ -426,6 +432,10 @@ SCOPES = [
 def _scope(si: int, from_other: bool) -> bool:
     sql, want = SCOPES[si]
     eng = std_engine()
+    for sc, tb in (("quoted_s", "T1"), ("quoted_s", "V 1"), ("Mixed_S", "people")):
+        if not eng.has_schema("DB1", sc):
+            eng.add_schema("DB1", sc)
+        eng.add_table("DB1", sc, tb)
     conn = instance(eng).connect(database="db1", schema="s1")
     base = len(eng.log)
     cur = conn.cursor()
@@ -447,7 +457,7 @@ def _scope(si: int, from_other: bool) -> bool:
 @ob(
     "C09.describe_and_show_scope_literals",
     encodes=["fakesnow.transforms.describe_table", "show_schemas", "show_keys", "fakesnow.cursor.FakeSnowflakeCursor._execute (DESCRIBE second query)"],
-    bounds="9 DESCRIBE TABLE / SHOW SCHEMAS / SHOW PRIMARY KEYS forms at every qualification level from a session on db1.s1: the query that reaches the "
+    bounds="14 DESCRIBE TABLE|VIEW / SHOW SCHEMAS / SHOW PRIMARY KEYS forms at every qualification level, with unquoted names in any letter case and quoted lower-, mixed- and upper-case names (incl. a space), from a session on db1.s1: the query that reaches the "
     "engine restricts catalog / schema / table to the folded names of the statement, or of the session where the statement leaves them out",
     timeout=(200, 400),
     stubs=["K1/K2 vf.duckstub.Engine"],
@@ -602,3 +612,8 @@ def independence(si: int, pk: int, as_dict: bool, same_cursor: bool) -> bool:
     from vf import fast as _f
 
     return done(_f.native(_indep.independent, _f.pick(si, len(_indep.SUBJECTS)), _IND_PRIORS[_f.pick(pk, len(_IND_PRIORS))], bool(_f.pick(as_dict, 2)), bool(_f.pick(same_cursor, 2))))
+
+import obligations.C06  # noqa: E402,F401
+from vf.registry import alias  # noqa: E402
+
+alias("C09.description_agrees_with_the_declared_type", "C06.rowtype_of_every_reachable_type", "precision / scale / length that DESCRIBE and information_schema report for a declared type equal what cursor.description of SELECT * reports for the engine type it was mapped to")
